@@ -1222,7 +1222,8 @@ Section FractionProofs.
     inversion FW as [|? ? Hw FW']; subst.
     destruct (fadjust h b) as [[l u] k] eqn:Ea.
     assert (Hl := fadjust_l_not_pinf b l u k Hw Ea).
-    destruct l; try congruence; simpl; apply IH; auto.
+    assert (Hu : ext_ltb PInf u = false) by (destruct u; reflexivity).
+    destruct l; try congruence; simpl; rewrite ?Hu; apply IH; auto.
   Qed.
 
   Lemma cdf_pinf : cdf PInf = h_count h.
